@@ -36,7 +36,7 @@ ATOMS = ["a", "b", "c", "z", "aa", "ab", "abc", "abd", "b0", "A", "Z", "_x", "",
          "foo", "fop", "fo", "f", "g", "-", "+", "point", "[a]"]
 CHARS = list("abcdxyz019 AZ_") + ["é", "è", "ÿ", "\u0100", "\u07ff", "\u0800", "€", "\u20ad", "\ufffd", "\U00010000",
                                   "\U0001f600", "\U0001f601", "'", '"', "\\", "."]
-FUNCTORS = ["f", "g", "foo", "fop", "a", "b", "-", "+", ".", "é", "\U00010000", "\ufffd", "[]", "{}", "point", "F"]
+FUNCTORS = ["f", "g", "foo", "fop", "a", "b", "-", "+", "é", "\U00010000", "\ufffd", "[]", "{}", "point", "F"]
 INTS = [0, 1, -1, 2, -2, 3, 7, 10, 255, 2 ** 31, 2 ** 55 - 1, 2 ** 55, 2 ** 55 + 1, -(2 ** 55), -(2 ** 55) - 1,
         2 ** 62, 2 ** 63 - 1, 2 ** 63, -(2 ** 63), -(2 ** 63) - 1, 2 ** 64, 2 ** 64 + 1, -(2 ** 64), 2 ** 70,
         10 ** 20, -(10 ** 20), 2 ** 128, 2 ** 200 + 1, -(2 ** 200)]
@@ -120,6 +120,8 @@ def to_model(t, rank):
         for c in reversed("".join(t[1])):
             r = "'.'(%s,%s)" % (qatom(c), r)
         return r
+    if k == "share":
+        return to_model(t[2], rank)
     raise ValueError(k)
 
 
@@ -159,6 +161,7 @@ class Builder:
         self.goals = []
         self.n = 0
         self.need_dot = False
+        self.shared = {}
 
     def fresh(self):
         self.n += 1
@@ -166,6 +169,14 @@ class Builder:
 
     def expr(self, t):
         k = t[0]
+        if k == "share":
+            # one physical subterm used in several places (also across the compared terms)
+            if t[1] not in self.shared:
+                e = self.expr(t[2])
+                v = "S%d" % t[1]
+                self.goals.append("%s = %s" % (v, e))
+                self.shared[t[1]] = v
+            return self.shared[t[1]]
         if k == "var":
             return "V%d" % t[1]
         if k == "int":
@@ -178,7 +189,10 @@ class Builder:
             s = pfloat(t[1])
             return s if not s.startswith("-") else "(%s)" % s
         if k == "atom":
-            return patom(t[1])
+            a = patom(t[1])
+            if t[1] != "[]" and not (t[1].isascii() and t[1].isalnum()):
+                a = "(%s)" % a          # operator atoms as operands must be bracketed
+            return a
         if k == "cmp":
             f = t[1]
             name = "'[]'" if f == "[]" else qatom(f)
@@ -196,9 +210,11 @@ class Builder:
             if mode == "dot":
                 self.need_dot = True
                 r = self.expr(tail)
+                if tail[0] == "atom" and not r.startswith("("):
+                    r = "(%s)" % r
                 for e in reversed(elems):
                     x = self.expr(e)
-                    if e[0] == "atom":
+                    if e[0] == "atom" and not x.startswith("("):
                         x = "(%s)" % x
                     r = "(%s '.' %s)" % (x, r)
                 return r
@@ -232,6 +248,10 @@ class Builder:
 
 
 HELPERS = r"""
+:- use_module(library(charsio)).
+c13_go(Chars, R) :- read_term_from_chars(Chars, G, [variable_names(Vs)]), call(G), c13_pick(Vs, R).
+c13_pick(Vs, R) :- c13_get('R', Vs, R).
+c13_get(N, [M=V|Vs], R) :- ( N == M -> R = V ; c13_get(N, Vs, R) ).
 c13_lis([], T, T).
 c13_lis([E|Es], T, [X|L]) :- X = E, c13_lis(Es, T, L).
 c13_drop(0, T, T).
@@ -257,6 +277,9 @@ c13_vars([], []).
 c13_vars([V|Vs], Os) :- c13_vrow(Vs, V, Os, Os1), c13_vars(Vs, Os1).
 c13_vrow([], _, Os, Os).
 c13_vrow([W|Ws], V, [O|Os0], Os) :- compare(O,V,W), c13_vrow(Ws, V, Os0, Os).
+c13_f3(S1, r([], [r(O1,X1,C1), r(O2,X2,C2)], [skip,skip], [])) :-
+    c13_lis(S1, [], L2), c13_lis(S1, [z], L1), A = f(S1,L1), B = f(L2,L2),
+    c13_r(A,B,r(O1,X1,C1)), c13_r(B,A,r(O2,X2,C2)).
 c13_vals([], []).
 c13_vals([_-V|Ps], [V|Vs]) :- c13_vals(Ps, Vs).
 """
@@ -282,11 +305,15 @@ def vars_of(t, acc):
         vars_of(t[2], acc)
     elif k in ("chs", "seg"):
         vars_of(t[2], acc)
+    elif k == "share":
+        vars_of(t[2], acc)
     return acc
 
 
 def uses_mode(t, mode):
     k = t[0]
+    if k == "share":
+        return uses_mode(t[2], mode)
     if k == "cmp":
         return any(uses_mode(a, mode) for a in t[2])
     if k == "lst":
@@ -298,8 +325,25 @@ def uses_mode(t, mode):
     return False
 
 
+def printable(t):
+    """False if printing the term back through the library API would hit the (unrelated) panic
+    on partial strings whose tail is an atom other than []."""
+    k = t[0]
+    if k == "cmp":
+        return all(printable(a) for a in t[2])
+    if k == "lst":
+        return all(printable(a) for a in t[1]) and printable(t[2]) and not (t[2][0] == "atom" and t[2] != NIL)
+    if k in ("chs", "seg"):
+        return printable(t[2]) and not (t[2][0] == "atom" and t[2] != NIL)
+    if k == "share":
+        return printable(t[2])
+    return True
+
+
 def make_case(cid, kind, terms, rng, extra=None):
-    """kind: 'cmp' (all ordered pairs of `terms`), 'sort', 'ksort'."""
+    """kind: 'cmp' (all ordered pairs of `terms`), 'sort', 'ksort'.
+    The goal is passed as text and read inside Prolog (read_term_from_chars), so only R is a
+    query variable: R = r(VarOrders, Results, PrintedTerms)."""
     b = Builder()
     vs = sorted(set().union(*[vars_of(t, set()) for t in terms])) if terms else []
     hold = list(vs)
@@ -321,15 +365,19 @@ def make_case(cid, kind, terms, rng, extra=None):
         goals.append("sort(%s, RS)" % tl)
     elif kind == "ksort":
         goals.append("keysort([%s], KS), c13_vals(KS, RS)" % ",".join("T%d-%d" % (i, i) for i in range(len(terms))))
-    q = ", ".join(goals) + "."
+    shown = [("T%d" % i if printable(t) else "skip") for i, t in enumerate(terms)]
+    if kind == "sort" and not all(printable(t) for t in terms):
+        return None
+    goals.append("R = r(VO, RS, [%s], [%s])" % (",".join(shown), ",".join("V%d" % i for i in vs)))
+    g = ", ".join(goals) + "."
+    q = "c13_go(\"%s\", R)." % g.replace("\\", "\\\\").replace('"', '\\"')
     lines = []
-    lines.append("L\t%s.l\tuser\t%s" % (cid, LOAD_LINE_BODY))
     if b.need_dot:
         lines.append("Q\t%s.o\t1\top(200, xfy, '.')." % cid)
     lines.append("Q\t%s\t2\t%s" % (cid, pesc(q)))
     if b.need_dot:
         lines.append("Q\t%s.u\t1\top(0, xfy, '.')." % cid)
-    c = {"id": cid, "kind": kind, "terms": terms, "vars": vs, "impl": lines, "prolog": q}
+    c = {"id": cid, "kind": kind, "terms": terms, "vars": vs, "impl": lines, "prolog": g}
     if extra:
         c.update(extra)
     return c
@@ -382,6 +430,9 @@ CMODES = ["pstr", "pstr", "lit", "lis", "lis", "dot"]
 
 def gen_term(rng, depth, nvars):
     r = rng.random()
+    if depth > 0 and rng.random() < 0.08:
+        SHARE_ID[0] += 1
+        return ("share", SHARE_ID[0], gen_term(rng, depth - 1, nvars))
     if depth <= 0 or r < 0.35:
         return gen_leaf(rng, nvars)
     if r < 0.6:
@@ -422,10 +473,17 @@ def neighbour_leaf(rng, t, nvars):
     return gen_leaf(rng, nvars)
 
 
+SHARE_ID = [0]
+
+
 def mutate(rng, t, nvars, depth=0):
     """a term close to t (often equal up to representation)."""
     k = t[0]
     r = rng.random()
+    if k == "share":
+        if r < 0.6:
+            return t                      # the very same physical subterm in the other term
+        return mutate(rng, t[2], nvars, depth)
     if k in ("var", "int", "rat", "flt", "atom"):
         if r < 0.75:
             return neighbour_leaf(rng, t, nvars)
@@ -595,9 +653,13 @@ def listlike(t):
 
 
 def head_tail(t):
-    """(head, tail, representation) of a list-like node"""
+    """(head, tail, representation) of a list cell, None for anything else"""
     k = t[0]
+    if k == "share":
+        return head_tail(t[2])
     if k == "lst":
+        if not t[1]:
+            return head_tail(t[2])
         rest = ("lst", t[1][1:], t[2], t[3]) if len(t[1]) > 1 else t[2]
         mode = t[3]
         if mode == "lit":
@@ -605,6 +667,8 @@ def head_tail(t):
             mode = "pstr" if (h[0] == "atom" and len(h[1]) == 1) else "lis"
         return t[1][0], rest, mode
     if k == "chs":
+        if not t[1]:
+            return head_tail(t[2])
         rest = ("chs", t[1][1:], t[2], t[3]) if len(t[1]) > 1 else t[2]
         mode = t[3]
         if mode == "lit":
@@ -612,6 +676,8 @@ def head_tail(t):
         return ("atom", t[1][0]), rest, mode
     if k == "seg":
         txt = "".join(t[1])
+        if not txt:
+            return head_tail(t[2])
         rest = ("seg", [txt[1:]], t[2], "") if len(txt) > 1 else t[2]
         return ("atom", txt[0]), rest, "pstr"
     if k == "cmp" and t[1] == "." and len(t[2]) == 2:
@@ -622,16 +688,17 @@ def head_tail(t):
 
 def repr_pairs(a, b, acc):
     """representation pairings met by a parallel walk (as far as both sides are list cells)."""
-    ha, hb = head_tail(a) if a[0] in ("lst", "chs", "seg", "cmp") else None, \
-        head_tail(b) if b[0] in ("lst", "chs", "seg", "cmp") else None
-    if ha and hb and (a[0] != "cmp" or True):
-        if (a[0] in ("lst", "chs", "seg") and a[1]) or a[0] == "cmp":
-            if (b[0] in ("lst", "chs", "seg") and b[1]) or b[0] == "cmp":
-                acc.add("%s/%s" % (ha[2], hb[2]))
-                repr_pairs(ha[0], hb[0], acc)
-                repr_pairs(ha[1], hb[1], acc)
-                return acc
-    if a[0] == "cmp" and b[0] == "cmp" and len(a[2]) == len(b[2]):
+    ha, hb = head_tail(a), head_tail(b)
+    if ha and hb:
+        acc.add("%s/%s" % (ha[2], hb[2]))
+        repr_pairs(ha[0], hb[0], acc)
+        repr_pairs(ha[1], hb[1], acc)
+        return acc
+    while a[0] == "share":
+        a = a[2]
+    while b[0] == "share":
+        b = b[2]
+    if not ha and not hb and a[0] == "cmp" and b[0] == "cmp" and len(a[2]) == len(b[2]):
         for x, y in zip(a[2], b[2]):
             repr_pairs(x, y, acc)
     return acc
@@ -639,8 +706,12 @@ def repr_pairs(a, b, acc):
 
 def kind_of(t):
     k = t[0]
-    if k in ("lst", "chs", "seg"):
+    if k == "share":
+        return kind_of(t[2])
+    if k in ("lst", "chs"):
         return "list" if t[1] else kind_of(t[2])
+    if k == "seg":
+        return "list" if "".join(t[1]) else kind_of(t[2])
     return {"cmp": "compound"}.get(k, k)
 
 
@@ -654,8 +725,13 @@ def split_top(s):
         if q:
             cur.append(c)
             if c == "\\":
-                i += 1
-                cur.append(s[i])
+                if s[i + 1] == "x":
+                    j = s.index("\\", i + 2)
+                    cur.append(s[i + 1:j + 1])
+                    i = j
+                else:
+                    i += 1
+                    cur.append(s[i])
             elif c == q:
                 q = None
         elif c in "'\"":
@@ -690,11 +766,47 @@ def parse_bindings(ans):
     return d
 
 
+def parse_answer(ans):
+    """'{R='r'(VO,RS,[T0,..])}' -> {'VO':..,'RS':..,'T0':..}; None if there is no such answer"""
+    d = parse_bindings(ans)
+    if not d or "R" not in d:
+        return None
+    r = d["R"]
+    if not (r.startswith("'r'(") and r.endswith(")")):
+        return None
+    parts = split_top(r[4:-1])
+    if len(parts) != 4:
+        return None
+    b = {"VO": parts[0], "RS": parts[1]}
+    ts = parse_list(parts[2])
+    vn = parse_list(parts[3])
+    if ts is None or vn is None:
+        return None
+    for i, t in enumerate(ts):
+        b["T%d" % i] = t
+    b["VN"] = vn
+    return b
+
+
 def parse_list(s):
     if s == "[]":
         return []
     if s.startswith('"') and s.endswith('"'):
-        return None
+        out, i, body = [], 0, s[1:-1]
+        while i < len(body):
+            c = body[i]
+            if c == "\\":
+                if body[i + 1] == "x":
+                    j = body.index("\\", i + 2)
+                    out.append(qatom(chr(int(body[i + 2:j], 16))))
+                    i = j + 1
+                    continue
+                out.append(qatom(body[i + 1]))
+                i += 2
+                continue
+            out.append(qatom(c))
+            i += 1
+        return out
     if s.startswith("[") and s.endswith("]"):
         return split_top(s[1:-1])
     return None
@@ -771,8 +883,10 @@ def rebuild_case(c):
     """JSON round trip turns tuples into lists; restore."""
     def fix(t):
         if isinstance(t, list):
-            if t and isinstance(t[0], str) and t[0] in ("var", "int", "rat", "flt", "atom", "cmp", "lst", "chs", "seg"):
+            if t and isinstance(t[0], str) and t[0] in ("var", "int", "rat", "flt", "atom", "cmp", "lst", "chs", "seg", "share"):
                 k = t[0]
+                if k == "share":
+                    return ("share", t[1], fix(t[2]))
                 if k == "cmp":
                     return ("cmp", t[1], [fix(a) for a in t[2]])
                 if k == "lst":
@@ -791,11 +905,27 @@ def rebuild_case(c):
 
 # ------------------------------------------------------------------ run
 
+def make_tabu_case(cid, n):
+    """fresh machine; A = f(S,L1), B = f(L2,L2) with S a string literal of n chars, L2 the same
+    chars as run-time list cells (one physical list used twice) and L1 = L2's chars followed by z.
+    The walk S/L2 records (byte offset of S + j, cell of L2's j-th cons); the walk L1/L2 then asks
+    for (cell of L1's j-th cons, the same L2 cell): for the right n the two coincide."""
+    text = "a" * n
+    chars = ("chs", text, NIL, "lis")
+    a = ("cmp", "f", [("chs", text, NIL, "pstr"), ("lst", [("atom", "a")] * n + [("atom", "z")], NIL, "lis")])
+    b = ("cmp", "f", [("share", 1, chars), ("share", 1, chars)])
+    lines = ["R\t%s.r" % cid,
+             "L\t%s.l\tuser\t%s" % (cid, LOAD_LINE_BODY),
+             "Q\t%s\t2\tc13_f3(%s, R)." % (cid, pstring(text))]
+    return {"id": cid, "kind": "cmp2", "terms": [a, b], "vars": [], "impl": lines, "family": "tabu",
+            "prolog": "c13_f3(\"a…\"(%d chars), R)" % n, "n": n}
+
+
 def generate(ctx):
     rng, tier = ctx["rng"], ctx["tier"]
     quick = tier == "quick"
     cases = []
-    n_pair = 1500 if quick else 30000
+    n_pair = 1200 if quick else 30000
     n_triple = 500 if quick else 9000
     n_sort = 150 if quick else 2500
     n_seg = 250 if quick else 4000
@@ -815,7 +945,9 @@ def generate(ctx):
         ts = gen_group(rng, n, nv)
         ts = ts + [rng.choice(ts) for _ in range(rng.choice([0, 1, 2]))]
         rng.shuffle(ts)
-        cases.append(make_case("s%d" % k, rng.choice(["sort", "ksort"]), ts, rng, {"family": "sort"}))
+        sc = make_case("s%d" % k, rng.choice(["sort", "ksort"]), ts, rng, {"family": "sort"})
+        if sc is not None:
+            cases.append(sc)
         k += 1
     f2_used = 0
     made = 0
@@ -841,7 +973,56 @@ def generate(ctx):
         cases.append(make_case("g%d" % k, "cmp", ts, rng, {"family": "pstrseg", "f2": hit}))
         k += 1
         made += 1
-    return cases
+    # visited-pair key collisions: scan the length over the window where list cell indices meet
+    # string byte offsets (the heap top of a fresh machine is a few hundred cells)
+    n = 150.0
+    while n < (12000 if quick else 120000):
+        cases.append(make_tabu_case("u%d" % k, int(n)))
+        k += 1
+        n *= 1.22
+    # cases expected to crash the process (open finding C13-2) go last in their worker
+    return [c for c in cases if not c.get("f2")] + [c for c in cases if c.get("f2")]
+
+
+def needs_retry(ans):
+    """the answer says nothing about the case: the helper program was lost (a panic or crash
+    earlier in the worker discards the machine) or the watchdog fired (loaded host)."""
+    return ans in ("missing", "timeout") or ans.startswith("skipped(") or \
+        ("existence_error" in ans and "c13_" in ans)
+
+
+def run_impl(cases):
+    """the helper program is consulted once per worker process; cases that lost it (a panic or a
+    crash earlier in the same worker discards the machine) are re-run one by one with their own
+    consult line."""
+    from concurrent.futures import ThreadPoolExecutor
+    jobs = max(1, min(core.NCPU, 12, len(cases) // 4 or 1))
+    chunks = [[] for _ in range(jobs)]
+    for i, c in enumerate(cases):
+        chunks[i % jobs].extend(c["impl"])
+    load = lambda tag: "L\t%s\tuser\t%s" % (tag, LOAD_LINE_BODY)
+    res = {}
+    with ThreadPoolExecutor(max_workers=jobs) as ex:
+        for r in ex.map(lambda ch: core.run_impl([load("load%d" % ch[0])] + ch[1]) if ch[1] else {},
+                        list(enumerate(chunks))):
+            res.update(r)
+    again = [c for c in cases if needs_retry(res.get(c["id"], "missing"))]
+    import os as _os
+    if _os.environ.get("C13_DEBUG"):
+        bad = {}
+        for c in cases:
+            a = res.get(c["id"], "missing")
+            if not a.startswith("{"):
+                bad[a[:60]] = bad.get(a[:60], 0) + 1
+        print("first pass: %d to retry; non-answers: %r" % (len(again), bad))
+    for attempt in (1, 2):
+        if not again:
+            break
+        with ThreadPoolExecutor(max_workers=jobs if attempt == 1 else 2) as ex:
+            for r in ex.map(lambda c: core.run_impl([load("%s.l%d" % (c["id"], attempt))] + c["impl"]), again):
+                res.update(r)
+        again = [c for c in again if needs_retry(res.get(c["id"], "missing"))]
+    return res
 
 
 def run(ctx):
@@ -850,30 +1031,30 @@ def run(ctx):
         cases = [rebuild_case(c) for c in rep]
     else:
         cases = [rebuild_case(c) for c in diff.load_corpus("C13")] + generate(ctx)
-    # ids must be unique (corpus first)
-    seen = set()
-    for c in cases:
-        while c["id"] in seen:
-            c["id"] = c["id"] + "x"
-            c["impl"] = None
-        seen.add(c["id"])
     import random as _r
-    for c in cases:
-        if c.get("impl") is None:
-            cc = make_case(c["id"], c["kind"], c["terms"], _r.Random(1), None)
-            c["impl"] = cc["impl"]
-            c["prolog"] = cc["prolog"]
-            c["vars"] = cc["vars"]
-    impl = core.run_impl_parallel([c["impl"] for c in cases])
+    seen = set()
+    for n, c in enumerate(cases):
+        if rep is None and c.get("corpus"):
+            # corpus cases are stored abstractly; render them with the current helpers
+            cc = make_case("k%d" % n, c["kind"], c["terms"], _r.Random(1), None)
+            c.update({"id": cc["id"], "impl": cc["impl"], "prolog": cc["prolog"], "vars": cc["vars"]})
+            c.setdefault("family", "corpus")
+        assert c["id"] not in seen
+        seen.add(c["id"])
+    import time as _t, os as _os
+    _t0 = _t.time()
+    impl = run_impl(cases)
+    if _os.environ.get("C13_DEBUG"):
+        print("impl phase %.1fs" % (_t.time() - _t0))
 
     findings = []
-    stats = {"render_mismatch": 0, "impl_not_ok": 0, "var_order_creation": 0, "var_cases": 0}
+    stats = {"render_mismatch": 0, "impl_not_ok": 0, "infrastructure_skipped": 0, "var_cases": 0}
     # phase 1: read the implementation's answers, fix the variable ranks, build model lines
     model_lines = []
     for c in cases:
         ans = impl.get(c["id"], "missing")
         c["ans"] = ans
-        b = parse_bindings(ans)
+        b = parse_answer(ans)
         c["b"] = b
         c["rank"] = None
         if b is None or "RS" not in b or "VO" not in b:
@@ -885,19 +1066,32 @@ def run(ctx):
         n = len(c["terms"])
         texts = [to_model(t, rank) for t in c["terms"]]
         c["texts"] = texts
+        vn = b.get("VN") or []
+        if len(vn) != len(c["vars"]) or len(set(vn)) != len(vn):
+            c["rank"] = None
+            continue
+        c["vmap"] = {name: "V%d" % rank[v] for name, v in zip(vn, c["vars"])}
         for i, tx in enumerate(texts):
             model_lines.append("norm\t%s.n%d\t%s" % (c["id"], i, tx))
+            got = b.get("T%d" % i)
+            if got is not None and got != "'skip'":
+                model_lines.append("norm\t%s.m%d\t%s" % (c["id"], i, rename_vars(got, c["vmap"])))
+        if c["kind"] == "sort":
+            model_lines.append("norm\t%s.r\t%s" % (c["id"], rename_vars(b["RS"], c["vmap"])))
         # the implementation's own printing of the terms, with variables renamed by rank
-        if c["kind"] == "cmp":
-            for i in range(n):
-                for j in range(n):
-                    model_lines.append("cmp\t%s.%d.%d\t%s\t%s" % (c["id"], i, j, texts[i], texts[j]))
-                    model_lines.append("ops\t%s.o%d.%d\t%s\t%s" % (c["id"], i, j, texts[i], texts[j]))
+        if c["kind"] in ("cmp", "cmp2"):
+            c["pairs"] = [(i, j) for i in range(n) for j in range(n)] if c["kind"] == "cmp" else [(0, 1), (1, 0)]
+            for (i, j) in c["pairs"]:
+                model_lines.append("cmp\t%s.%d.%d\t%s\t%s" % (c["id"], i, j, texts[i], texts[j]))
+                model_lines.append("ops\t%s.o%d.%d\t%s\t%s" % (c["id"], i, j, texts[i], texts[j]))
         elif c["kind"] == "sort":
             model_lines.append("sort\t%s.s\t%s" % (c["id"], "\t".join(texts)))
         elif c["kind"] == "ksort":
             model_lines.append("ksort\t%s.s\t%s" % (c["id"], "\t".join(texts)))
+    _t0 = _t.time()
     model = core.run_model(model_lines) if model_lines else {}
+    if _os.environ.get("C13_DEBUG"):
+        print("model phase %.1fs (%d lines)" % (_t.time() - _t0, len(model_lines)))
 
     agree = 0
     evaluations = 0
@@ -920,12 +1114,15 @@ def run(ctx):
                                       if x[0] == "seg" and y[0] == "seg")
         if rep is not None:
             print("replay %s\n  impl : %s" % (c["prolog"], ans))
+        if b is None and needs_retry(ans) and ans != "timeout":
+            stats["infrastructure_skipped"] += 1     # helper program could not be (re)loaded
+            continue
         if b is None or "RS" not in (b or {}):
             # no answer: crash / panic / error / failure
             stats["impl_not_ok"] += 1
             what = ans.split("(")[0]
             if f2:
-                sig = {"family": "pstrseg", "defect": "misaligned-left-pstr-ends-first", "outcome": "no-answer"}
+                sig = {"family": "pstrseg", "shape": "misaligned-left-pstr-ends-first", "defect": "no-answer"}
             else:
                 sig = {"family": fam, "defect": "no-answer", "outcome": what, "terms": " | ".join(ttexts)}
             findings.append(finding("violation", sig,
@@ -946,35 +1143,39 @@ def run(ctx):
             if got is None:
                 bad_render = True
                 break
-            for v in sorted(c["vars"], reverse=True):
-                pass
-            # rename V<i> -> V<rank> in the implementation's text (outside quotes)
-            got2 = rename_vars(got, rank)
+            if got == "'skip'":
+                continue
+            got2 = model.get("%s.m%d" % (c["id"], i))
             if got2 != want:
                 bad_render = True
                 break
         if bad_render:
             stats["render_mismatch"] += 1
+            import os as _os
+            if _os.environ.get("C13_DEBUG") and stats["render_mismatch"] <= 12:
+                print("RENDER", c["prolog"][:300], "\n   impl :", got, "\n   model:", want)
             if rep is not None:
                 print("  render mismatch: impl printed %s, model reads %s" % (got, want))
             continue
         n = len(c["terms"])
         ok = True
-        if c["kind"] == "cmp":
+        if c["kind"] in ("cmp", "cmp2"):
             rs = parse_list(b["RS"])
-            if rs is None or len(rs) != n * n:
+            pairs = c["pairs"]
+            if rs is None or len(rs) != len(pairs):
                 rs = None
             res = {}
             if rs is not None:
-                for i in range(n):
-                    for j in range(n):
-                        res[(i, j)] = parse_r(rs[i * n + j])
+                for k2, pr in enumerate(pairs):
+                    res[pr] = parse_r(rs[k2])
             if rs is None or any(v is None for v in res.values()):
                 sig = {"family": fam, "defect": "unreadable-answer", "terms": " | ".join(ttexts)}
                 findings.append(finding("disagreement", sig, "could not read the answer %s" % b["RS"][:200], c))
                 continue
             for i in range(n):
                 for j in range(n):
+                    if (i, j) not in res:
+                        continue
                     io, ix, ic = res[(i, j)]
                     mo = model.get("%s.%d.%d" % (c["id"], i, j))
                     mf = model.get("%s.o%d.%d" % (c["id"], i, j))
@@ -988,8 +1189,12 @@ def run(ctx):
                         print("  (%d,%d) impl=%s %s %s  model=%s %s" % (i, j, io, ix, ic, mo, mf))
                     sp = set()
                     repr_pairs(c["terms"][i], c["terms"][j], sp)
+                    sp2 = set(sp)
+                    repr_pairs(c["terms"][j], c["terms"][i], sp2)
                     base = {"family": fam}
-                    if "dot/lis" in sp:
+                    if fam == "tabu":
+                        base["shape"] = "string-byte-offset-meets-list-cell-index"
+                    elif "dot/lis" in sp:
                         base["shape"] = "strdot-left-vs-lis-right"
                     elif f2:
                         base["shape"] = "misaligned-left-pstr-ends-first"
@@ -1012,13 +1217,15 @@ def run(ctx):
                                                 c, {"pair": [i, j]}))
                     if mf is not None and mo is not None and mf != flags_for(mo):
                         findings.append(finding("disagreement", {"family": fam, "defect": "model-ops"}, "model flags", c))
-                    if res[(j, i)][0] != swap(io):
+                    if (j, i) in res and res[(j, i)][0] != swap(io):
                         ok = False
                         sig = dict(base, defect="antisymmetry")
+                        if "dot/lis" in sp2 and "shape" not in sig:
+                            sig = {"family": fam, "defect": "antisymmetry", "shape": "strdot-left-vs-lis-right"}
                         findings.append(finding("violation", sig,
                                                 "compare(T%d,T%d)=%s but compare(T%d,T%d)=%s" % (i, j, io, j, i, res[(j, i)][0]),
                                                 c, {"pair": [i, j]}))
-                if res[(i, i)][0] != "eq":
+                if (i, i) in res and res[(i, i)][0] != "eq":
                     ok = False
                     findings.append(finding("violation", {"family": fam, "defect": "reflexivity", "t1": ttexts[i]},
                                             "compare(T,T) is not =", c))
@@ -1026,6 +1233,8 @@ def run(ctx):
             for i in range(n):
                 for j in range(n):
                     for l in range(n):
+                        if (i, j) not in res or (j, l) not in res or (i, l) not in res:
+                            continue
                         a, bb, cc = res[(i, j)][0], res[(j, l)][0], res[(i, l)][0]
                         bad = (a == "lt" and bb == "lt" and cc != "lt") or (a == "eq" and cc != bb) or \
                               (bb == "eq" and cc != a) or (a == "gt" and bb == "gt" and cc != "gt")
@@ -1051,7 +1260,7 @@ def run(ctx):
             if c["kind"] == "ksort":
                 got = " ".join(parse_list(got) or ["?"])
             else:
-                got = rename_vars(got, rank)
+                got = model.get(c["id"] + ".r")
             if rep is not None:
                 print("  impl=%s\n  model=%s" % (got, want))
             for tx in set(c["texts"]):
@@ -1088,14 +1297,15 @@ def run(ctx):
         "kind_pairs_hit": kinds_hit,
         "render_mismatch_discarded": stats["render_mismatch"],
         "cases_without_answer": stats["impl_not_ok"],
+        "infrastructure_skipped": stats["infrastructure_skipped"],
         "cases_with_variables": stats["var_cases"],
         "exhaustive": False,
         "findings": findings,
     }
 
 
-def rename_vars(text, rank):
-    """V<i> -> V<rank[i]> outside quoted items of canonical text."""
+def rename_vars(text, mapping):
+    """renames variable tokens (V12, _G3) outside quoted items of canonical text."""
     out, i, q = [], 0, None
     n = len(text)
     while i < n:
@@ -1103,8 +1313,13 @@ def rename_vars(text, rank):
         if q:
             out.append(c)
             if c == "\\":
-                i += 1
-                out.append(text[i])
+                if text[i + 1] == "x":
+                    j = text.index("\\", i + 2)
+                    out.append(text[i + 1:j + 1])
+                    i = j
+                else:
+                    i += 1
+                    out.append(text[i])
             elif c == q:
                 q = None
             i += 1
@@ -1114,11 +1329,12 @@ def rename_vars(text, rank):
             out.append(c)
             i += 1
             continue
-        if c == "V" and i + 1 < n and text[i + 1].isdigit() and (i == 0 or not (text[i - 1].isalnum() or text[i - 1] == "_")):
+        if (c == "V" or c == "_") and (i == 0 or not (text[i - 1].isalnum() or text[i - 1] == "_")):
             j = i + 1
-            while j < n and text[j].isdigit():
+            while j < n and (text[j].isalnum() or text[j] == "_"):
                 j += 1
-            out.append("V%d" % rank.get(int(text[i + 1:j]), int(text[i + 1:j])))
+            tok = text[i:j]
+            out.append(mapping.get(tok, tok))
             i = j
             continue
         out.append(c)
